@@ -130,6 +130,7 @@ def conclude(prop_id, tier, seed, *, states, transitions, executions, nontrivial
             if not ok:
                 nondeterministic += 1
                 print("ENGINE-ERROR: violation did not reproduce on replay: %s" % sigkey)
+                print("   detail=%s" % json.dumps(v.get("detail"), default=str)[:1500])
                 continue
         path = write_replay(prop_id, v, dict(count=n, tier=tier, seed=seed))
         if printed < 12:
